@@ -30,6 +30,24 @@ func (env *Env) call(e *ECall) TV {
 		sub := *env
 		sub.cur = env.old
 		return sub.tr(e.Args[0])
+	case "atloop":
+		// atloop(k, e): e evaluated in the state in which loop k was first entered
+		if !need(2) {
+			return TV{"false", "Bool", B}
+		}
+		k, ok := e.Args[0].(*EInt)
+		if !ok {
+			return env.fail("atloop needs a literal loop ordinal")
+		}
+		var n int
+		fmt.Sscan(k.Val, &n)
+		stt := env.loopEntry[n]
+		if stt == nil {
+			return env.fail("atloop(%d): no such loop state here", n)
+		}
+		sub := *env
+		sub.cur = stt
+		return sub.tr(e.Args[1])
 	case "len":
 		if !need(1) {
 			return TV{"0", "Int", I}
@@ -265,6 +283,9 @@ func (env *Env) call(e *ECall) TV {
 	if sf, ok := fc.eng.Spec.Specs[e.Fun]; ok {
 		return env.specCall(sf, e)
 	}
+	if tv, ok := env.pureGoCall(e); ok {
+		return tv
+	}
 	return env.fail("unknown function %q", e.Fun)
 }
 
@@ -354,4 +375,30 @@ func (fc *FnCtx) emitSpecFunc(sf *SpecFunc) string {
 		fc.P.funDecls = append(fc.P.funDecls, fmt.Sprintf("(define-fun %s (%s) %s %s)", name, strings.Join(ps, " "), rS, body.T))
 	}
 	return name
+}
+
+// pureGoCall: application of a Go function under a `pure` contract with a single result, as the mathematical function
+// pf_<name>. Call sites of that function learn result == pf_<name>(args); lemmas may use its proved contract as an axiom.
+func (env *Env) pureGoCall(e *ECall) (TV, bool) {
+	fc := env.fc
+	if env.tpkg == nil {
+		return TV{}, false
+	}
+	key := env.tpkg.Path() + "::" + e.Fun
+	fn := fc.eng.Funcs[key]
+	ctr := fc.eng.Spec.Funcs[key]
+	if fn == nil || ctr == nil || !ctr.Pure || fn.Signature.Results().Len() != 1 || len(fn.Params) != len(e.Args) {
+		return TV{}, false
+	}
+	name, _ := fc.pureFun(fn)
+	var as []string
+	for i := range e.Args {
+		as = append(as, env.tr(e.Args[i]).T)
+	}
+	rT := fn.Signature.Results().At(0).Type()
+	if fc.pfUsed == nil {
+		fc.pfUsed = map[string]bool{}
+	}
+	fc.pfUsed[key] = true
+	return TV{fmt.Sprintf("(%s %s)", name, strings.Join(as, " ")), fc.P.SortOf(rT), rT}, true
 }
